@@ -164,10 +164,19 @@ class Res:
             return self.parts[0][0]
         return None
 
-    def ints(self) -> List[int]:
+    def int_bounds(self):
+        """(smallest, largest) admissible integer"""
+        rs = [nearest_ints(lo - tol, hi + tol) for lo, hi, tol in self.parts]
+        rs = [r for r in rs if len(r)]
+        return (min(r[0] for r in rs), max(r[-1] for r in rs)) if rs else None
+
+    def ints(self, limit: int = 100000) -> List[int]:
         out = set()
         for lo, hi, tol in self.parts:
-            out.update(nearest_ints(lo - tol, hi + tol))
+            r = nearest_ints(lo - tol, hi + tol)
+            if len(r) > limit:
+                raise OverflowError("too many admissible integers to enumerate")
+            out.update(r)
         return sorted(out)
 
     def strict_ints(self) -> List[int]:
@@ -205,7 +214,9 @@ class Res:
         if self.kind == "val":
             return repr(self.values)
         if self.integer:
-            return f"one of {self.ints()} (exact {[_fmt(lo) if lo == hi else (_fmt(lo), _fmt(hi)) for lo, hi, _ in self.parts]})"
+            b = self.int_bounds()
+            shown = self.ints() if b and b[1] - b[0] < 50 else f"an integer in {b}"
+            return f"one of {shown} (exact {[_fmt(lo) if lo == hi else (_fmt(lo), _fmt(hi)) for lo, hi, _ in self.parts]})"
         return " or ".join(
             (f"{_fmt(lo)}" if lo == hi else f"[{_fmt(lo)}, {_fmt(hi)}]") + f" +-{float(tol):.3g}"
             for lo, hi, tol in self.parts)
